@@ -622,6 +622,16 @@ for i in range(nL):
                      tau=float(rng.uniform(0.5, 3.0)))]
         if rng.random() < 0.3:
             runs[0]["prealloc"] = np.complex128
+        if kind == "huber-lanczos" and (i // 6) % 2 == 1:
+            # tau just above the largest sample while the samples have a clear non-zero mean: every weight is 1 at the
+            # start point 0 but NOT at the mean, so the estimator must keep iterating (boundary of the quadratic regime)
+            # (a large common offset, the timetraces of one transmitter with inverted polarity)
+            off = complex(rng.uniform(6.0, 12.0), rng.uniform(-3.0, 3.0)) * float(np.max(np.abs(spec["data"])))
+            dnew = spec["data"] + off
+            dnew[np.asarray(spec["tx"]) == int(np.asarray(spec["tx"])[0])] *= -1.0
+            spec["data"] = np.ascontiguousarray(dnew)
+            runs[0]["tau"] = float(rng.uniform(1.02, 1.12) * np.max(np.abs(spec["data"])))
+            chk.count(huber_tau="just above max|sample|, non-zero mean")
     exec_lruns(spec, runs, "L-" + kind)
 
 llines, lindex = [], []
